@@ -1,6 +1,6 @@
 (* Line protocol driver of the extracted connection-bookkeeping model (C18).
    The process keeps one current (params, state); every command answers one line.
-     init <listeners> <limit> <timeout> <interval> <send_bytes> <lookahead> <sndbuf> <t0> <fd0>
+     init <listeners> <limit> <timeout> <interval> <send_bytes> <lookahead> <sndbuf> <high_watermark> <t0> <fd0>
      connect <l> | send <fd> p|k|c | app <fd> <n,n,..|-> | reads <fd> <n> | stalls <fd>
      disc <fd> | adv <d> | poll                      -> dump of the state after the event
      pred <name> <args..>                             -> value of a generated predicate *)
@@ -43,7 +43,7 @@ let dump (s : state) : string =
       (sb c.c_inreq) (sz c.c_last) (sb c.c_wc) (sb c.c_cwf) (sz c.c_pend))) s.st_chans;
   Buffer.contents b
 
-let cur_p = ref { p_limit = Z0; p_timeout = Z0; p_interval = Z0; p_send_bytes = Z0; p_lookahead = Z0; p_sndbuf = Z0 }
+let cur_p = ref { p_limit = Z0; p_timeout = Z0; p_interval = Z0; p_send_bytes = Z0; p_lookahead = Z0; p_sndbuf = Z0; p_high_watermark = Z0 }
 let cur_s = ref (init O Z0 Z0)
 
 let ev e = cur_s := step !cur_p !cur_s e; dump !cur_s
@@ -53,9 +53,9 @@ let nlist s = if s = "-" then [] else List.map (fun t -> n_of_int (int_of_string
 let flush_name = function FlushSome -> "some" | FlushIfLockable -> "lockable" | FlushNone -> "none"
 
 let () = main_loop (fun w -> match w with
-  | ["init"; nl; lim; tmo; itv; sbytes; la; sndbuf; t0; fd0] ->
+  | ["init"; nl; lim; tmo; itv; sbytes; la; sndbuf; hw; t0; fd0] ->
     cur_p := { p_limit = zs lim; p_timeout = zs tmo; p_interval = zs itv; p_send_bytes = zs sbytes;
-               p_lookahead = zs la; p_sndbuf = zs sndbuf };
+               p_lookahead = zs la; p_sndbuf = zs sndbuf; p_high_watermark = zs hw };
     cur_s := init (nat_of_int (int_of_string nl)) (zs t0) (zs fd0);
     dump !cur_s
   | ["connect"; l] -> ev (EConnect (nat_of_int (int_of_string l)))
@@ -68,7 +68,7 @@ let () = main_loop (fun w -> match w with
   | ["poll"] -> ev EPoll
   | ["pred"; "chan_readable"; wc; cwf; n; la; tot] -> sb (gen_chan_readable (bs wc) (bs cwf) (zs n) (zs la) (zs tot))
   | ["pred"; "chan_writable"; tot; wc; cwf] -> sb (gen_chan_writable (zs tot) (bs wc) (bs cwf))
-  | ["pred"; "hw_flush"; n; tot; sbytes] -> flush_name (gen_hw_flush (zs n) (zs tot) (zs sbytes))
+  | ["pred"; "hw_flush"; n; tot; sbytes; hw] -> flush_name (gen_hw_flush (zs n) (zs tot) (zs sbytes) (zs hw))
   | ["pred"; "hw_after"; cwf; wc; tot] ->
     let ((a, b), c) = gen_hw_after (bs cwf) (bs wc) (zs tot) in sb a ^ sb b ^ sb c
   | ["pred"; "maint"; n; la; now; tmo] -> sb (gen_maint_test (zs n) (zs la) (gen_maint_cutoff (zs now) (zs tmo)))
